@@ -66,6 +66,10 @@ pub fn byzantine_assignment<F: Field>(c: &Circuit<F>, publics: &[F], privates: &
             w[id.0 as usize] = Some(v);
         }
     };
+    // a fused MulAdd's product slot is constrained by no table. If nothing else mentions it, its
+    // value is not observable (the honest product is as good a choice as any); if another op reads
+    // it, the byzantine prover picks a *wrong* product on purpose — the emitted ops allow it
+    let dont_care = pure_intermediate_slots(c);
     // sweep the list until nothing new can be derived (a slot may only become derivable from an
     // op further down, e.g. an operand pinned backwards by a later op)
     for _sweep in 0..8 {
@@ -102,7 +106,8 @@ pub fn byzantine_assignment<F: Field>(c: &Circuit<F>, publics: &[F], privates: &
                         if let (Some(x), Some(y)) = (g(&w, *a), g(&w, *b)) {
                             // the product slot is constrained by no table: leave it alone if fixed
                             if let Some(io) = intermediate_out {
-                                setif(&mut w, *io, x * y);
+                                let v = if dont_care.contains(&io.0) { x * y } else { x * y + F::ONE };
+                                setif(&mut w, *io, v);
                             }
                             let cv = cv.unwrap_or(F::ZERO);
                             setif(&mut w, *out, x * y + cv);
